@@ -91,7 +91,9 @@ class Version(object):
         else:
             version = f"{self.upstream}"
 
-        if self.revision not in (None, "0"):
+        # a "0" revision is implied, unless the upstream version has a hyphen:
+        # the last hyphen is the one that separates the revision
+        if self.revision not in (None, "0") or "-" in self.upstream:
             version += f"-{self.revision}"
 
         return version
